@@ -76,3 +76,439 @@ Proof.
   exists s. split; auto. generalize witness_double_eval. rewrite E. intros X. injection X as T D.
   exists 2, 4, 0. rewrite T. simpl. split; [discriminate|auto].
 Qed.
+
+(* ================================================================== OnActivate before the first OnReceive *)
+
+Definition ever (l : list event) (p : nat) : Prop := In (EActEnd p true) l.
+
+Lemma abr_mono : forall l seen seen', (forall p, existsb (Nat.eqb p) seen = true -> existsb (Nat.eqb p) seen' = true) ->
+  act_before_recv seen l = true -> act_before_recv seen' l = true.
+Proof.
+  induction l as [|e t IH]; simpl; intros seen seen' M H; auto.
+  destruct e; try (eapply IH; eauto; fail).
+  - destruct ok; [|eapply IH; eauto]. eapply IH; [|exact H]. intros q. simpl.
+    intros X. apply orb_true_iff in X. apply orb_true_iff. destruct X; auto.
+  - apply andb_true_iff in H. destruct H as (A & B). apply andb_true_iff. split; eauto.
+Qed.
+
+Lemma abr_snoc : forall l seen e,
+  act_before_recv seen l = true ->
+  (forall p m, e = ERecvBegin p m -> existsb (Nat.eqb p) seen = true \/ ever l p) ->
+  act_before_recv seen (l ++ [e]) = true.
+Proof.
+  induction l as [|a t IH]; simpl; intros seen e H C.
+  - destruct e; auto. destruct ok; auto. destruct (C p m eq_refl) as [X|X]; [rewrite X; auto|destruct X].
+  - destruct a; try (apply IH; auto; intros p0 m0 E; destruct (C p0 m0 E) as [X|[X|X]]; auto; discriminate).
+    + destruct ok.
+      * apply IH; auto. intros p0 m0 E. destruct (C p0 m0 E) as [X|[X|X]]; auto.
+        -- left. simpl. rewrite X. apply orb_true_r.
+        -- inversion X; subst. left. simpl. rewrite Nat.eqb_refl. auto.
+      * apply IH; auto. intros p0 m0 E. destruct (C p0 m0 E) as [X|[X|X]]; auto. discriminate.
+    + apply andb_true_iff in H. destruct H as (A & B). apply andb_true_iff. split; auto.
+      apply IH; auto. intros p0 m0 E. destruct (C p0 m0 E) as [X|[X|X]]; auto. discriminate.
+Qed.
+
+Record Inv1 (s : state) : Prop := mkInv1 {
+  J1 : act_before_recv [] (log s) = true;
+  J2 : forall p, (mbox (pf s p) <> [] \/ flag (pf s p) = true) -> ever (log s) p
+}.
+
+Lemma ever_app : forall l l' p, ever l p -> ever (l ++ l') p.
+Proof. unfold ever; intros; apply in_or_app; auto. Qed.
+
+(* what `turn` may emit: at most one event, and an ERecvBegin only for a message that was in the mailbox *)
+Lemma turn_spec : forall p mb fl op ps ev t st,
+  turn p fl op mb = (ps, ev, t, st) ->
+  flag ps = fl /\ (mbox ps <> [] -> mb <> []) /\
+  (ev = [] \/ (exists m, ev = [ERecvBegin p m] /\ mb <> []) \/ (ev = [EDeactBegin p] /\ fl = true)).
+Proof.
+  induction mb as [|m rest IH]; simpl; intros fl op ps ev t st H.
+  - inversion H; subst; simpl. split; auto.
+  - destruct m.
+    + inversion H; subst; simpl. split; auto. split; [intros _; discriminate|]. right; left. exists id. split; auto. discriminate.
+    + destruct fl.
+      * inversion H; subst; simpl. split; auto. split; [intros _; discriminate|]. right; right; auto.
+      * destruct (IH _ _ _ _ _ _ H) as (A & B & C). split; auto. split; [intros _; discriminate|].
+        destruct C as [C|[(m & C & D)|(C & D)]]; auto. right; left. exists m. split; auto. discriminate.
+Qed.
+
+Lemma inv1_0 : Inv1 state0.
+Proof. constructor; simpl; auto. intros p [H|H]; [contradiction H; auto|discriminate]. Qed.
+
+Lemma abr_snoc2 : forall l e1 ev p,
+  act_before_recv [] l = true ->
+  (forall q m, e1 <> ERecvBegin q m) ->
+  (ev = [] \/ (exists m, ev = [ERecvBegin p m] /\ ever l p) \/ ev = [EDeactBegin p]) ->
+  act_before_recv [] (l ++ e1 :: ev) = true.
+Proof.
+  intros l e1 ev p H N C.
+  assert (A : act_before_recv [] (l ++ [e1]) = true).
+  { apply abr_snoc; auto. intros q m E. exfalso; eapply N; eauto. }
+  destruct C as [C|[(m & C & E)|C]]; subst ev.
+  - exact A.
+  - change (l ++ [e1; ERecvBegin p m]) with (l ++ [e1] ++ [ERecvBegin p m]). rewrite app_assoc.
+    apply abr_snoc; auto. intros q m' X. inversion X; subst. right. apply ever_app; auto.
+  - change (l ++ [e1; EDeactBegin p]) with (l ++ [e1] ++ [EDeactBegin p]). rewrite app_assoc.
+    apply abr_snoc; auto. intros q m' X. discriminate.
+Qed.
+
+Lemma inv1_step : forall s lb s', Inv1 s -> step s lb = Some s' -> Inv1 s'.
+Proof.
+  intros s lb s' [j1 j2] S. destruct lb as [m|p|p|i ok]; simpl in S.
+  - (* Send *)
+    destruct (gmap s) as [g|] eqn:G.
+    + destruct (flag (pf s g)) eqn:FG.
+      * inversion S; subst; clear S. constructor; simpl; auto.
+      * destruct (existsb in_flight (threads s)); [discriminate|]. inversion S; subst; clear S. constructor; simpl.
+        -- apply abr_snoc; auto. intros q m' X; discriminate.
+        -- intros q H. apply ever_app. auto.
+    + destruct (existsb in_flight (threads s)); [discriminate|]. inversion S; subst; clear S. constructor; simpl.
+      * apply abr_snoc; auto. intros q m' X; discriminate.
+      * intros q H. apply ever_app. apply j2. unfold set_pf in H. destruct (Nat.eqb q (nxt s)); auto.
+        simpl in H. destruct H as [H|H]; [contradiction H; auto|discriminate].
+  - (* Work *)
+    destruct (sch (pf s p)) eqn:SC; try discriminate.
+    destruct (turn p (flag (pf s p)) (onpill (pf s p)) (mbox (pf s p))) as [[[ps' ev] t] st] eqn:T.
+    inversion S; subst; clear S. destruct (turn_spec _ _ _ _ _ _ _ _ T) as (A & B & C).
+    constructor; simpl.
+    + destruct C as [C|[(m & C & D)|(C & D)]]; subst ev.
+      * rewrite app_nil_r; auto.
+      * apply abr_snoc; auto. intros q m' X. inversion X; subst. right. apply j2. auto.
+      * apply abr_snoc; auto. intros q m' X. discriminate.
+    + intros q H. apply ever_app. apply j2. unfold set_pf in H. destruct (Nat.eqb_spec q p) as [Eq|Nq]; [subst q|]; auto.
+      destruct H as [H|H]; [left; auto|right; congruence].
+  - (* Pass *)
+    destruct (flag (pf s p) && negb (onpill (pf s p))); inversion S; subst; clear S; constructor; simpl; auto.
+    + apply abr_snoc; auto. intros q m' X; discriminate.
+    + intros q H. apply ever_app; auto.
+  - (* Adv *)
+    destruct (nth_error (threads s) i) as [t|]; [|discriminate].
+    destruct t as [m p|m p|p m|p|p|]; try discriminate.
+    + (* SAct *)
+      destruct ok; inversion S; subst; clear S; constructor; simpl.
+      * apply abr_snoc; auto. intros q m' X; discriminate.
+      * intros q H. unfold set_pf in H. destruct (Nat.eqb_spec q p) as [Eq|Nq]; [subst q|].
+        -- apply in_or_app. right. simpl. auto.
+        -- apply ever_app; auto.
+      * apply abr_snoc; auto. intros q m' X; discriminate.
+      * intros q H. apply ever_app; auto.
+    + (* SEnq *)
+      destruct (flag (pf s p)) eqn:FP; inversion S; subst; clear S; constructor; simpl; auto.
+      intros q H. unfold set_pf in H. destruct (Nat.eqb_spec q p) as [Eq|Nq]; [subst q|]; auto.
+    + (* WRecv *)
+      destruct (turn p (flag (pf s p)) (onpill (pf s p)) (mbox (pf s p))) as [[[ps' ev] t] st] eqn:T.
+      inversion S; subst; clear S. destruct (turn_spec _ _ _ _ _ _ _ _ T) as (A & B & C).
+      constructor; simpl.
+      * apply abr_snoc2 with (p := p); auto; [intros q m' X; discriminate|].
+        destruct C as [C|[(m' & C & D)|(C & D)]]; [left; auto| right; left; exists m'; split; auto; apply j2; left; auto | right; right; auto].
+      * intros q H. apply ever_app. apply j2. unfold set_pf in H. destruct (Nat.eqb_spec q p) as [Eq|Nq]; [subst q|]; auto.
+        destruct H as [H|H]; [left; auto|right; congruence].
+    + (* WDeact *)
+      unfold after_deact in S.
+      set (pf1 := set_pf (pf s) p (mkPid false false (mbox (pf s p)) (sch (pf s p)))) in *.
+      assert (P1 : pf1 p = mkPid false false (mbox (pf s p)) (sch (pf s p))) by (unfold pf1, set_pf; rewrite Nat.eqb_refl; auto).
+      rewrite P1 in S. simpl in S.
+      destruct (turn p false false (mbox (pf s p))) as [[[ps' ev] t] st] eqn:T.
+      inversion S; subst; clear S. destruct (turn_spec _ _ _ _ _ _ _ _ T) as (A & B & C).
+      constructor; simpl.
+      * apply abr_snoc2 with (p := p); auto; [intros q m' X; discriminate|].
+        destruct C as [C|[(m' & C & D)|(C & D)]]; [left; auto| right; left; exists m'; split; auto; apply j2; left; auto | discriminate D].
+      * intros q H. apply ever_app. apply j2. unfold set_pf in H. destruct (Nat.eqb_spec q p) as [Eq|Nq]; [subst q|].
+        -- destruct H as [H|H]; [left; auto|congruence].
+        -- unfold pf1, set_pf in H. destruct (Nat.eqb_spec q p); [contradiction|auto].
+    + (* PDeact *)
+      unfold after_deact in S. inversion S; subst; clear S. constructor; simpl.
+      * apply abr_snoc; auto. intros q m' X; discriminate.
+      * intros q H. apply ever_app. apply j2. unfold set_pf in H. destruct (Nat.eqb_spec q p) as [Eq|Nq]; [subst q|]; auto.
+        simpl in H. destruct H as [H|H]; [left; auto|discriminate].
+Qed.
+
+Theorem act_before_recv_always : forall ls s, run state0 ls = Some s -> act_before_recv [] (log s) = true.
+Proof.
+  assert (G : forall ls s s', Inv1 s -> run s ls = Some s' -> Inv1 s').
+  { induction ls as [|l t IH]; simpl; intros s s' I R; [inversion R; subst; auto|].
+    destruct (step s l) as [s1|] eqn:S; [|discriminate]. eapply IH; [|exact R]. eapply inv1_step; eauto. }
+  intros ls s R. apply (J1 _ (G _ _ _ inv1_0 R)).
+Qed.
+
+(* ================================================================== on-turn deactivation only *)
+
+Definition wk (t : tpc) : option nat := match t with WRecv p _ | WDeact p => Some p | _ => None end.
+Definition tpid (t : tpc) : option nat :=
+  match t with SAct _ p | SEnq _ p | WRecv p _ | WDeact p | PDeact p => Some p | TDone => None end.
+
+Record Inv2 (s : state) : Prop := mkInv2 {
+  K1 : forall i p, nth_error (threads s) i <> Some (PDeact p);
+  K2 : forall i j ti tj p, nth_error (threads s) i = Some ti -> nth_error (threads s) j = Some tj ->
+         wk ti = Some p -> wk tj = Some p -> i = j;
+  K3 : forall i t p, nth_error (threads s) i = Some t -> wk t = Some p -> sch (pf s p) = Processing;
+  K4 : forall p, nxt s <= p -> pf s p = pid0;
+  K5 : forall i t p, nth_error (threads s) i = Some t -> tpid t = Some p -> p < nxt s;
+  K6 : forall g, gmap s = Some g -> g < nxt s
+}.
+
+Lemma inv2_0 : Inv2 state0.
+Proof. constructor; simpl; intros; auto; try discriminate; destruct i; discriminate. Qed.
+
+Lemma nth_error_set_nth_same : forall A (l : list A) i x y, nth_error l i = Some y -> nth_error (set_nth i x l) i = Some x.
+Proof. induction l; destruct i; simpl; intros; try discriminate; auto. eapply IHl; eauto. Qed.
+Lemma nth_error_set_nth_other : forall A (l : list A) i j x, i <> j -> nth_error (set_nth i x l) j = nth_error l j.
+Proof. induction l; destruct i; destruct j; simpl; intros; auto; try congruence. Qed.
+
+Lemma nth_error_snoc : forall A (l : list A) x i y, nth_error (l ++ [x]) i = Some y ->
+  (i < length l /\ nth_error l i = Some y) \/ (i = length l /\ y = x).
+Proof.
+  intros A l x i y H. destruct (lt_dec i (length l)) as [L|L].
+  - left. split; auto. rewrite nth_error_app1 in H; auto.
+  - right. rewrite nth_error_app2 in H by lia. destruct (i - length l) as [|k] eqn:E; simpl in H.
+    + inversion H; subst. split; auto. lia.
+    + destruct k; discriminate.
+Qed.
+
+Lemma turn_wk : forall p mb fl op ps ev t st, turn p fl op mb = (ps, ev, t, st) ->
+  (t = TDone /\ sch ps = Idle) \/ (wk t = Some p /\ tpid t = Some p /\ sch ps = Processing).
+Proof.
+  induction mb as [|m rest IH]; simpl; intros fl op ps ev t st H.
+  - inversion H; subst; simpl; auto.
+  - destruct m.
+    + inversion H; subst; simpl; auto.
+    + destruct fl; [inversion H; subst; simpl; auto|eapply IH; eauto].
+Qed.
+
+(* appending a thread that is not a worker and leaving every pid's turn state alone *)
+Lemma inv2_add_plain : forall s t pf' nxt' g' l' st',
+  Inv2 s -> wk t = None -> (forall p, t <> PDeact p) ->
+  (forall p, tpid t = Some p -> p < nxt') -> nxt s <= nxt' ->
+  (forall p, p < nxt s -> pf' p = pf s p) -> (forall p, nxt' <= p -> pf' p = pid0) ->
+  (forall g, g' = Some g -> g < nxt') ->
+  Inv2 (mkS pf' nxt' g' (threads s ++ [t]) l' st').
+Proof.
+  intros s t pf' nxt' g' l' st' [k1 k2 k3 k4 k5 k6] W NP TP LE SAME FR GL. constructor; simpl.
+  - intros i p H. apply nth_error_snoc in H. destruct H as [(_ & H)|(_ & H)]; [eapply k1; eauto|eapply NP; eauto].
+  - intros i j ti tj p Hi Hj Wi Wj. apply nth_error_snoc in Hi. apply nth_error_snoc in Hj.
+    destruct Hi as [(_ & Hi)|(_ & Hi)]; [|subst; congruence]. destruct Hj as [(_ & Hj)|(_ & Hj)]; [|subst; congruence]. eauto.
+  - intros i t0 p H Wt. apply nth_error_snoc in H. destruct H as [(_ & H)|(_ & H)]; [|subst; congruence].
+    rewrite SAME; [eapply k3; eauto|]. eapply k5; eauto. destruct t0; simpl in *; try discriminate; auto.
+  - auto.
+  - intros i t0 p H T. apply nth_error_snoc in H. destruct H as [(_ & H)|(_ & H)].
+    + assert (p < nxt s) by eauto. lia.
+    + subst. auto.
+  - auto.
+Qed.
+
+(* thread i (a worker on p, or a fresh worker appended at the end) continues with the outcome of `turn` *)
+Lemma inv2_turn_at : forall s i p told ps' t g' l' st' pfb,
+  Inv2 s -> nth_error (threads s) i = Some told -> wk told = Some p ->
+  (forall q, q <> p -> pfb q = pf s q) ->
+  ((t = TDone /\ sch ps' = Idle) \/ (wk t = Some p /\ tpid t = Some p /\ sch ps' = Processing)) ->
+  (forall g, g' = Some g -> g < nxt s) ->
+  Inv2 (mkS (set_pf pfb p ps') (nxt s) g' (set_nth i t (threads s)) l' st').
+Proof.
+  intros s i p told ps' t g' l' st' pfb [k1 k2 k3 k4 k5 k6] N W SAME TW GL.
+  assert (PL : p < nxt s) by (eapply k5; eauto; destruct told; simpl in *; try discriminate; auto).
+  constructor; simpl.
+  - intros j q H. destruct (Nat.eq_dec j i) as [->|Hne].
+    + rewrite (nth_error_set_nth_same _ _ _ _ _ N) in H. inversion H; subst.
+      destruct TW as [(A & _)|(A & _)]; [discriminate|simpl in A; discriminate].
+    + rewrite nth_error_set_nth_other in H by auto. eapply k1; eauto.
+  - intros a b ta tb q Ha Hb Wa Wb.
+    destruct (Nat.eq_dec a i) as [->|Na]; destruct (Nat.eq_dec b i) as [->|Nb]; auto.
+    + rewrite (nth_error_set_nth_same _ _ _ _ _ N) in Ha. inversion Ha; subst.
+      rewrite nth_error_set_nth_other in Hb by auto.
+      destruct TW as [(A & _)|(A & _)]; [subst; discriminate|]. assert (q = p) by congruence. subst.
+      symmetry. eapply k2; eauto.
+    + rewrite (nth_error_set_nth_same _ _ _ _ _ N) in Hb. inversion Hb; subst.
+      rewrite nth_error_set_nth_other in Ha by auto.
+      destruct TW as [(A & _)|(A & _)]; [subst; discriminate|]. assert (q = p) by congruence. subst.
+      eapply k2; eauto.
+    + rewrite nth_error_set_nth_other in Ha, Hb by auto. eauto.
+  - intros j t0 q H Wq. unfold set_pf. destruct (Nat.eq_dec j i) as [->|Hne].
+    + rewrite (nth_error_set_nth_same _ _ _ _ _ N) in H. inversion H; subst.
+      destruct TW as [(A & _)|(A & _ & B)]; [subst; discriminate|]. assert (q = p) by congruence. subst.
+      rewrite Nat.eqb_refl. auto.
+    + rewrite nth_error_set_nth_other in H by auto. destruct (Nat.eqb_spec q p) as [->|Nq].
+      * exfalso. apply Hne. eapply k2; eauto.
+      * rewrite SAME by auto. eapply k3; eauto.
+  - intros q H. unfold set_pf. destruct (Nat.eqb_spec q p) as [->|Nq]; [lia|]. rewrite SAME by auto. auto.
+  - intros j t0 q H T. destruct (Nat.eq_dec j i) as [->|Hne].
+    + rewrite (nth_error_set_nth_same _ _ _ _ _ N) in H. inversion H; subst.
+      destruct TW as [(A & _)|(_ & A & _)]; [subst; discriminate|]. congruence.
+    + rewrite nth_error_set_nth_other in H by auto. eauto.
+  - auto.
+Qed.
+
+(* thread i becomes a non-worker thread t; pid states change only in ways that keep Processing *)
+Lemma inv2_set_plain : forall s i told t pf' g' l' st',
+  Inv2 s -> nth_error (threads s) i = Some told -> wk t = None -> (forall p, t <> PDeact p) ->
+  (forall p, tpid t = Some p -> p < nxt s) ->
+  (forall p, sch (pf s p) = Processing -> sch (pf' p) = Processing) ->
+  (forall p, nxt s <= p -> pf' p = pid0) ->
+  wk told = None ->
+  (forall g, g' = Some g -> g < nxt s) ->
+  Inv2 (mkS pf' (nxt s) g' (set_nth i t (threads s)) l' st').
+Proof.
+  intros s i told t pf' g' l' st' [k1 k2 k3 k4 k5 k6] N W NP TP KEEP FR WO GL. constructor; simpl.
+  - intros j q H. destruct (Nat.eq_dec j i) as [->|Hne].
+    + rewrite (nth_error_set_nth_same _ _ _ _ _ N) in H. inversion H; subst. eapply NP; eauto.
+    + rewrite nth_error_set_nth_other in H by auto. eapply k1; eauto.
+  - intros a b ta tb q Ha Hb Wa Wb.
+    destruct (Nat.eq_dec a i) as [->|Na]; [rewrite (nth_error_set_nth_same _ _ _ _ _ N) in Ha; inversion Ha; subst; congruence|].
+    destruct (Nat.eq_dec b i) as [->|Nb]; [rewrite (nth_error_set_nth_same _ _ _ _ _ N) in Hb; inversion Hb; subst; congruence|].
+    rewrite nth_error_set_nth_other in Ha, Hb by auto. eauto.
+  - intros j t0 q H Wq. destruct (Nat.eq_dec j i) as [->|Hne].
+    + rewrite (nth_error_set_nth_same _ _ _ _ _ N) in H. inversion H; subst. congruence.
+    + rewrite nth_error_set_nth_other in H by auto. apply KEEP. eapply k3; eauto.
+  - auto.
+  - intros j t0 q H T. destruct (Nat.eq_dec j i) as [->|Hne].
+    + rewrite (nth_error_set_nth_same _ _ _ _ _ N) in H. inversion H; subst. auto.
+    + rewrite nth_error_set_nth_other in H by auto. eauto.
+  - auto.
+Qed.
+
+Lemma inv2_step : forall s lb s', Inv2 s -> on_turn_only lb = true -> step s lb = Some s' -> Inv2 s'.
+Proof.
+  intros s lb s' I G S. destruct lb as [m|p|p|i ok]; simpl in S, G; try discriminate.
+  - (* Send *)
+    destruct (gmap s) as [g|] eqn:GM.
+    + assert (GL : g < nxt s) by (exact (K6 _ I _ GM)).
+      destruct (flag (pf s g)) eqn:FG.
+      * inversion S; subst; clear S.
+        eapply inv2_add_plain; [exact I | reflexivity | intros; discriminate | | apply le_n | auto | apply (K4 _ I) | ].
+        -- intros p E. inversion E; subst. auto.
+        -- intros g0 E. inversion E; subst. auto.
+      * destruct (existsb in_flight (threads s)); [discriminate|]. inversion S; subst; clear S.
+        eapply inv2_add_plain; [exact I | reflexivity | intros; discriminate | | apply le_n | auto | apply (K4 _ I) | ].
+        -- intros p E. inversion E; subst. auto.
+        -- intros g0 E. inversion E; subst. auto.
+    + destruct (existsb in_flight (threads s)); [discriminate|]. inversion S; subst; clear S.
+      eapply inv2_add_plain; [exact I | reflexivity | intros; discriminate | | | | | ].
+      * intros p E. inversion E; subst. lia.
+      * lia.
+      * intros p L. unfold set_pf. destruct (Nat.eqb_spec p (nxt s)); [lia|auto].
+      * intros p L. unfold set_pf. destruct (Nat.eqb_spec p (nxt s)); auto. apply (K4 _ I). lia.
+      * intros g0 E. discriminate.
+  - (* Work *)
+    destruct (sch (pf s p)) eqn:SC; try discriminate.
+    destruct (turn p (flag (pf s p)) (onpill (pf s p)) (mbox (pf s p))) as [[[ps' ev] t] st] eqn:T.
+    inversion S; subst; clear S. pose proof (turn_wk _ _ _ _ _ _ _ _ T) as TW.
+    assert (PL : p < nxt s).
+    { destruct (le_lt_dec (nxt s) p) as [L|L]; auto. rewrite (K4 _ I _ L) in SC. discriminate. }
+    assert (NW : forall j tj, nth_error (threads s) j = Some tj -> wk tj <> Some p).
+    { intros j tj H W. rewrite (K3 _ I _ _ _ H W) in SC. discriminate. }
+    destruct I as [k1 k2 k3 k4 k5 k6]. constructor; simpl.
+    + intros j q H. apply nth_error_snoc in H. destruct H as [(_ & H)|(_ & H)]; [eapply k1; eauto|].
+      destruct TW as [(A & _)|(A & _)]; subst; [discriminate|simpl in A; discriminate].
+    + intros a b ta tb q Ha Hb Wa Wb. apply nth_error_snoc in Ha. apply nth_error_snoc in Hb.
+      destruct Ha as [(_ & Ha)|(Ea & Ha)]; destruct Hb as [(_ & Hb)|(Eb & Hb)]; try lia; eauto.
+      * subst tb. destruct TW as [(A & _)|(A & _)]; [subst; discriminate|]. assert (q = p) by congruence. subst. exfalso; eapply NW; eauto.
+      * subst ta. destruct TW as [(A & _)|(A & _)]; [subst; discriminate|]. assert (q = p) by congruence. subst. exfalso; eapply NW; eauto.
+    + intros j t0 q H Wq. unfold set_pf. apply nth_error_snoc in H. destruct H as [(_ & H)|(_ & H)].
+      * destruct (Nat.eqb_spec q p) as [->|Nq]; [exfalso; eapply NW; eauto|eauto].
+      * subst t0. destruct TW as [(A & _)|(A & _ & B)]; [subst; discriminate|]. assert (q = p) by congruence. subst.
+        rewrite Nat.eqb_refl. auto.
+    + intros q L. unfold set_pf. destruct (Nat.eqb_spec q p); [lia|auto].
+    + intros j t0 q H TP. apply nth_error_snoc in H. destruct H as [(_ & H)|(_ & H)]; eauto.
+      subst t0. destruct TW as [(A & _)|(_ & A & _)]; [subst; discriminate|]. congruence.
+    + auto.
+  - (* Adv *)
+    destruct (nth_error (threads s) i) as [t|] eqn:N; [|discriminate].
+    destruct t as [m p|m p|p m|p|p|]; try discriminate.
+    + (* SAct *)
+      assert (PL : p < nxt s) by (eapply (K5 _ I); eauto; reflexivity).
+      destruct ok; inversion S; subst; clear S.
+      * eapply inv2_set_plain with (told := SAct m p); [exact I | exact N | reflexivity | intros; discriminate | | | | reflexivity | ].
+        -- intros q E. inversion E; subst. auto.
+        -- intros q H. unfold set_pf. destruct (Nat.eqb_spec q p) as [->|]; auto.
+        -- intros q L. unfold set_pf. destruct (Nat.eqb_spec q p); [lia|apply (K4 _ I); auto].
+        -- intros g0 E. inversion E; subst. auto.
+      * eapply inv2_set_plain with (told := SAct m p); [exact I | exact N | reflexivity | intros; discriminate | | auto | apply (K4 _ I) | reflexivity | apply (K6 _ I)].
+        intros q E. discriminate.
+    + (* SEnq *)
+      assert (PL : p < nxt s) by (eapply (K5 _ I); eauto; reflexivity).
+      destruct (flag (pf s p)); inversion S; subst; clear S.
+      * eapply inv2_set_plain with (told := SEnq m p); [exact I | exact N | reflexivity | intros; discriminate | | | | reflexivity | apply (K6 _ I)].
+        -- intros q E. discriminate.
+        -- intros q H. unfold set_pf. destruct (Nat.eqb_spec q p) as [->|]; auto. simpl. rewrite H. auto.
+        -- intros q L. unfold set_pf. destruct (Nat.eqb_spec q p); [lia|apply (K4 _ I); auto].
+      * eapply inv2_set_plain with (told := SEnq m p); [exact I | exact N | reflexivity | intros; discriminate | | auto | apply (K4 _ I) | reflexivity | apply (K6 _ I)].
+        intros q E. discriminate.
+    + (* WRecv *)
+      destruct (turn p (flag (pf s p)) (onpill (pf s p)) (mbox (pf s p))) as [[[ps' ev] t] st] eqn:T.
+      inversion S; subst; clear S.
+      eapply inv2_turn_at with (told := WRecv p m) (pfb := pf s); [exact I | exact N | reflexivity | auto | eapply turn_wk; eauto | apply (K6 _ I)].
+    + (* WDeact *)
+      unfold after_deact in S.
+      set (pf1 := set_pf (pf s) p (mkPid false false (mbox (pf s p)) (sch (pf s p)))) in *.
+      destruct (turn p (flag (pf1 p)) (onpill (pf1 p)) (mbox (pf1 p))) as [[[ps' ev] t] st] eqn:T.
+      inversion S; subst; clear S.
+      eapply inv2_turn_at with (told := WDeact p) (pfb := pf1); [exact I | exact N | reflexivity | | eapply turn_wk; eauto | ].
+      * intros q Nq. unfold pf1, set_pf. destruct (Nat.eqb_spec q p); [contradiction|auto].
+      * intros g0 E. destruct ok; [discriminate|apply (K6 _ I); auto].
+    + (* PDeact: impossible without Pass *)
+      exfalso. eapply (K1 _ I); eauto.
+Qed.
+
+Lemma inv2_run_g : forall ls s s', Inv2 s -> run_g s ls = Some s' -> Inv2 s'.
+Proof.
+  induction ls as [|l t IH]; simpl; intros s s' I R; [inversion R; subst; auto|].
+  destruct (on_turn_only l) eqn:G; [|discriminate]. destruct (step s l) as [s1|] eqn:S; [|discriminate].
+  eapply IH; [|exact R]. eapply inv2_step; eauto.
+Qed.
+
+Lemma inv2_safe : forall s, Inv2 s -> ~ overlap s /\ ~ double_deact s.
+Proof.
+  intros s [k1 k2 k3 k4 k5 k6]. split.
+  - intros (p & m & A & B). apply In_nth_error in A. destruct A as (i & A).
+    destruct B as [B|B]; apply In_nth_error in B; destruct B as (j & B).
+    + eapply k1; eauto.
+    + assert (i = j) by (eapply k2; eauto; reflexivity). subst. congruence.
+  - intros (i & j & p & Ne & [A|A] & [B|B]); try (eapply k1; eauto; fail).
+    apply Ne. eapply k2; eauto; reflexivity.
+Qed.
+
+(* without direct passivation: OnDeactivate never overlaps OnReceive, never runs twice at once, and (act_before_recv_always)
+   every OnReceive follows a successful OnActivate *)
+Theorem onturn_safe : forall ls s, run_g state0 ls = Some s ->
+  ~ overlap s /\ ~ double_deact s /\ act_before_recv [] (log s) = true.
+Proof.
+  intros ls s R. destruct (inv2_safe _ (inv2_run_g _ _ _ inv2_0 R)) as (A & B). split; auto. split; auto.
+  apply (act_before_recv_always ls).
+  clear A B. revert R. generalize state0. induction ls as [|l t IH]; simpl; intros s0 R; auto.
+  destruct (on_turn_only l); [|discriminate]. destruct (step s0 l); [|discriminate]. auto.
+Qed.
+
+(* a send that starts once a deactivation has completed (the local entry is gone, no activation in flight) begins the
+   activation of a pid that has never existed before *)
+Theorem fresh_after_deactivation : forall s m,
+  gmap s = None -> existsb in_flight (threads s) = false ->
+  step s (Send m) = Some (mkS (set_pf (pf s) (nxt s) pid0) (S (nxt s)) None (threads s ++ [SAct m (nxt s)])
+                              (log s ++ [EActBegin (nxt s)]) (stale_recv s)).
+Proof. intros s m G F. simpl. rewrite G, F. reflexivity. Qed.
+
+(* ... and a successful deactivation does remove the local entry *)
+Theorem deactivation_clears_entry : forall s i p s',
+  nth_error (threads s) i = Some (WDeact p) \/ nth_error (threads s) i = Some (PDeact p) ->
+  step s (Adv i true) = Some s' -> gmap s' = None /\ flag (pf s' p) = false.
+Proof.
+  intros s i p s' [N|N] S; simpl in S; rewrite N in S; unfold after_deact in S.
+  - set (pf1 := set_pf (pf s) p (mkPid false false (mbox (pf s p)) (sch (pf s p)))) in *.
+    assert (P1 : pf1 p = mkPid false false (mbox (pf s p)) (sch (pf s p))) by (unfold pf1, set_pf; rewrite Nat.eqb_refl; auto).
+    rewrite P1 in S. simpl in S.
+    destruct (turn p false false (mbox (pf s p))) as [[[ps' ev] t] st] eqn:T. inversion S; subst; simpl. split; auto.
+    unfold set_pf. rewrite Nat.eqb_refl. destruct (turn_spec _ _ _ _ _ _ _ _ T) as (A & _). auto.
+  - inversion S; subst; simpl. split; auto. unfold set_pf. rewrite Nat.eqb_refl. auto.
+Qed.
+
+(* the guard is satisfiable: failing activation, re-send, handling, pill whose OnDeactivate fails, re-activation of the
+   same pid, second message *)
+Definition onturn_example : list label :=
+  [ Send (Msg 0); Adv 0 false; Send (Msg 1); Adv 1 true; Adv 1 true; Work 1; Adv 2 true;
+    Send Pill; Adv 3 true; Work 1; Adv 4 false; Send (Msg 2); Adv 5 true; Adv 5 true; Work 1; Adv 6 true ].
+
+Example onturn_example_runs :
+  match run_g state0 onturn_example with
+  | Some s => (log s, gmap s, stale_recv s)
+  | None => ([], None, true)
+  end = ([EActBegin 0; EActEnd 0 false; EActBegin 1; EActEnd 1 true; ERecvBegin 1 1; ERecvEnd 1 1;
+          EDeactBegin 1; EDeactEnd 1 false; EActBegin 1; EActEnd 1 true; ERecvBegin 1 2; ERecvEnd 1 2], Some 1, false).
+Proof. vm_compute. reflexivity. Qed.
